@@ -614,7 +614,7 @@ class CaseResult(dict):
 
 
 def explore(fn, params, profile="fp", budget_s=600.0, max_paths=200000, oblig_timeout_s=60.0, portfolio=False,
-            validate_paths=1, fmod_K=3, case_name="", known=None, stop_on_violation=True, separate=False, fmod_fork=False, argsort_mode="fork", incremental_discharge=False):
+            validate_paths=1, fmod_K=3, case_name="", known=None, stop_on_violation=True, separate=False, fmod_fork=False, argsort_mode="fork", incremental_discharge=False, abstract_mul=False):
     """Explore every path of harness fn(P, **params); discharge the obligations of every path.
 
     Returns a dict with paths / obligations / discharged / violations (each replayed) / inconclusive / stats."""
@@ -623,6 +623,7 @@ def explore(fn, params, profile="fp", budget_s=600.0, max_paths=200000, oblig_ti
     c.fmod_K = fmod_K
     c.fmod_fork = fmod_fork
     c.argsort_mode = argsort_mode
+    c.abstract_mul = abstract_mul
     c.incremental_discharge = bool(incremental_discharge)
     core.set_ctx(c)
     c.queue = [[]]
